@@ -91,7 +91,8 @@ class Flow(VC):
             final = st1
             paid[k] = paid.get(k, 0) + amt
         else:
-            rep = mk_reply(I, ctx, rid, False)
+            # the platform calls reply with the id the contract put on the failing sub-message
+            rep = mk_reply(I, ctx, msgs[0].get("id"), False)
             o2, r2 = run_entry(I, ctx, fn(I, "reply", CRATE), [make_deps(), env, rep], st1)
             ob.require("C11.reply_never_fails", o2 == "Ok")
             if o2 != "Ok": return
